@@ -55,6 +55,7 @@ def run(ctx: Ctx, rep: Report) -> None:
     rep.rule("C03-R2", "the progress guard is strict: equal and greater-or-equal orderings raise, only requested < retrieved passes", floor=3)
     rep.rule("C03-R3", "the guard pairs requested[i] with retrieved[i]", floor=1)
     rep.rule("C03-R4", "every fetch of the walk loop is covered: lenient mode ends the walk normally, strict mode re-raises", floor=2)
+    rep.rule("C03-R6", "the pythonic walk / table methods forward the error mode and the roots to the raw operations unchanged (shared with C15-R4)", floor=2)
     rep.rule("C03-R5", "the continuation list is renewed on every path to the back edge", floor=2)
     rep.assumptions += [
         "the OID universe the agent reveals is finite",
@@ -73,6 +74,7 @@ def run(ctx: Ctx, rep: Report) -> None:
         check_fetcher(ctx, rep, wm, f)
     check_handlers(ctx, rep, wm)
     check_loop_renewal(ctx, rep, wm)
+    rep.adopt_rules(ctx.sub_run("c15", rep), "C03-R6", ["C15-R4"])
 
 
 def check_fetcher(ctx: Ctx, rep: Report, wm: WalkModel, f: FuncInfo) -> None:
@@ -321,6 +323,13 @@ def check_handlers(ctx: Ctx, rep: Report, wm: WalkModel) -> None:
 
 
 def check_loop_renewal(ctx: Ctx, rep: Report, wm: WalkModel) -> None:
+    # the continuation point of a root is taken from *its* column of the response: a regrouping with the wrong
+    # stride hands one root the progress of another and OIDs are requested again (shared with C01-R4)
+    from .c01 import check_group
+
+    gsub = Report(rep.prop, rep.tier)
+    check_group(ctx, gsub, wm)
+    rep.adopt(gsub, "C03-R5")
     sub = Report(rep.prop, rep.tier)
     check_loop(ctx, sub, wm, r3="C03-R5", r6="C03-R5")
     for ob in sub.obligations:
